@@ -163,6 +163,37 @@ def collision_tables(case, sig_a, sig_b):
     return c2
 
 
+def gen_collision_case(rng):
+    """Different rows of one source that produce the SAME statement: adjacent references whose concatenations coincide,
+    values that canonicalise to the same lexical form, values that differ only in non-printable characters."""
+    EX = mapcase.EX
+    kind = rng.choice(['concat', 'integer', 'boolean', 'printable', 'datetime'])
+    cfg = {'nquads': rng.random() < 0.5, 'mode': rng.choice(['PARTIAL-AGGREGATIONS', 'MAXIMAL', 'NO'])}
+    def tm(k, v, ck='iri', tt=''):
+        return {'k': k, 'v': v, 'ck': ck, 'tt': tt}
+    subj = tm('templ', EX + 'r/{k}')
+    if kind == 'concat':
+        rows = [['1', 'a', 'ab'], ['1', 'aa', 'b'], ['1', 'a', 'b'], ['2', 'ab', 'a'], ['2', 'a', 'ba']]
+        obj = {'m': rng.choice([tm('templ', '{x}{y}', 'iri', 'lit'), tm('templ', EX + 'o/{x}{y}'), tm('templ', 'n{x}{y}', 'iri', 'bnode')]), 'lang': None, 'dt': None, 'joins': []}
+    elif kind == 'integer':
+        rows = [['1', '1', 'u'], ['1', '1.0', 'v'], ['1', ' 1', 'w'], ['1', '01', 'x'], ['2', '7', 'y']]
+        obj = {'m': tm('ref', 'x'), 'lang': None, 'dt': tm('const', mapcase.XSD + 'integer'), 'joins': []}
+    elif kind == 'boolean':
+        rows = [['1', 'TRUE', 'u'], ['1', 'true', 'v'], ['1', 'True', 'w'], ['2', 'false', 'y']]
+        obj = {'m': tm('ref', 'x'), 'lang': None, 'dt': tm('const', mapcase.XSD + 'boolean'), 'joins': []}
+    elif kind == 'datetime':
+        rows = [['1', '2020-01-01 10:00:00', 'u'], ['1', '2020-01-01T10:00:00', 'v'], ['2', '2021-01-01 10:00:00', 'y']]
+        obj = {'m': tm('ref', 'x'), 'lang': None, 'dt': tm('const', mapcase.XSD + 'dateTime'), 'joins': []}
+    else:
+        rows = [['1', 'a\x07b', 'u'], ['1', 'ab', 'v'], ['1', 'a\u200bb', 'w'], ['2', 'c', 'y']]
+        obj = {'m': tm('ref', 'x'), 'lang': None, 'dt': None, 'joins': []}
+        cfg['printable'] = True
+    rng.shuffle(rows)
+    return {'cfg': cfg, 'sources': [{'key': 'S0', 'kind': 'csv', 'cols': ['k', 'x', 'y'], 'rows': rows}],
+            'doc': [{'id': EX + 'tm/TM0', 'src': 'S0', 'nonasserted': False, 'subj': subj, 'sjoins': [], 'classes': [], 'sgraphs': [],
+                     'poms': [{'preds': [tm('const', EX + 'p/p')], 'objs': [obj], 'graphs': []}]}]}
+
+
 def run(ctx, res):
     res.rule = ('(a) partition tie: for generated mappings (core + prefix families) the rule table of the implementation (retrieve_mappings, '
                 'PARTIAL-AGGREGATIONS and MAXIMAL) is matched rule by rule with the model; every pair of rules the implementation puts into different '
@@ -236,7 +267,7 @@ def run(ctx, res):
                 res.disagreements.append({'what': 'the implementation (%s) separates two rules the proven criterion does not allow to separate: %s | %s'
                                                   % (mode, sa, sb), 'replay': c})
     # (b) CLI on a sample
-    sample = cases[:ctx.scale(40, 600)]
+    sample = cases[:ctx.scale(40, 600)] + [gen_collision_case(ctx.rng) for _ in range(ctx.scale(16, 120))]
     for mode_dir in (False, True):
         for c, r in zip(sample, cli_outputs(ctx, sample, mode_dir)):
             res.evaluations += 1
